@@ -183,7 +183,6 @@ class JsonRPCProtocol:
                         f'Request with id "{msg_id}" is canceled'
                     ).to_response_error(),
                 )
-            self._request_futures.pop(msg_id, None)
         except JsonRpcException as error:
             logger.exception('Exception occurred for message "%s": %s', msg_id, error)
             self._send_response(msg_id, error=error.to_response_error())
@@ -191,6 +190,8 @@ class JsonRPCProtocol:
             error = JsonRpcInternalError.of(sys.exc_info())
             logger.exception('Exception occurred for message "%s": %s', msg_id, error)
             self._send_response(msg_id, error=error.to_response_error())
+        finally:
+            self._request_futures.pop(msg_id, None)
 
     def _get_handler(self, feature_name):
         """Returns builtin or used defined feature by name if exists."""
